@@ -49,7 +49,11 @@ func NewUniverse(rng *rand.Rand, nk int, big bool) *Universe {
 		add(k)
 	}
 	for len(u.Keys) < nk {
-		switch rng.Intn(7) {
+		switch rng.Intn(9) {
+		case 7: // canonical decimal: reachable through the *Any calls as an int
+			add([]byte(fmt.Sprintf("%d", rng.Intn(4000)-1000)))
+		case 8: // "a,b,c": reachable as []int
+			add([]byte(fmt.Sprintf("%d,%d", rng.Intn(50), rng.Intn(2000)-1000)))
 		case 0:
 			add([]byte{byte(rng.Intn(256))})
 		case 1:
